@@ -408,7 +408,9 @@ func (c *compiler) BinaryNode(node *ast.BinaryNode) {
 }
 
 func (c *compiler) MatchesNode(node *ast.MatchesNode) {
-	if node.Regexp != nil {
+	// The parser compiles a literal pattern ahead of time; use that only while the
+	// right operand still is the literal it was compiled from (a visitor may have replaced it).
+	if str, ok := node.Right.(*ast.StringNode); ok && node.Regexp != nil && node.Regexp.String() == str.Value {
 		c.compile(node.Left)
 		c.emit(OpMatchesConst, c.makeConstant(node.Regexp)...)
 		return
